@@ -312,6 +312,31 @@ def project(root):
   return p.heap, r
 
 
+def has_shared_internable(heap):
+  """True iff a tuple that fiddle may intern (all items leaves or, recursively, such tuples --
+  daglish.is_internable) or a leaf-only named tuple is referenced more than once: its sharing is neither
+  observable (constant folding) nor significant."""
+  memo = {}
+
+  def internable(i):
+    if i not in memo:
+      o = heap[i - 1]
+      memo[i] = o['k'] == 'tuple' and all(
+          (not isinstance(it['val'], int)) or it['val'] >= 0 or internable(-it['val']) for it in o['items'])
+    return memo[i]
+
+  refc = {}
+  for o in heap:
+    for it in o['items']:
+      if isinstance(it['val'], int) and it['val'] < 0:
+        refc[-it['val']] = refc.get(-it['val'], 0) + 1
+  for i, o in enumerate(heap, 1):
+    leaf_only_nt = o['k'] == 'ntuple' and all(not (isinstance(it['val'], int) and it['val'] < 0) for it in o['items'])
+    if refc.get(i, 0) > 1 and (internable(i) or leaf_only_nt):
+      return True
+  return False
+
+
 def canon_sorted(heap, root=1):
   """Canonical form of an abstract heap modulo dict insertion order (dict items sorted by key id)."""
   out, ids = [], {}
